@@ -2,7 +2,7 @@
    This is what the OCaml driver calls; each command evaluates model functions on a case that the
    Python harness also runs on the rebuilt implementation. *)
 From OptreeModel Require Export Wire Flatten Unflatten Spec Ops Registry Pickle Accessor.
-From OptreeModel Require Ravel Dataclass Typing Faults Depth Alias Conc.
+From OptreeModel Require Ravel Dataclass Typing Faults Depth Alias Conc ArraySpec.
 
 Definition bad : sexp := SL [SI 2].   (* undecodable input: a harness error, never a verdict *)
 
@@ -346,6 +346,14 @@ Definition dec_act (s : sexp) : option Conc.act :=
   end.
 Definition cmd_wf (ps : list (list Conc.act)) : sexp := SL (map (fun p => enc_bool (Conc.wf [] p)) ps).
 
+(* cmd 21: PyTreeSpec::Children as the engine computes it: the index walk over the node array *)
+Definition cmd_arr_children (c : cfg) (o : obj) : sexp :=
+  match flatten c o with
+  | Err e => enc_err e
+  | Ok (_, sp) =>
+    enc_res (fun l => SL (map (fun a => SL (map enc_node a)) l)) (ArraySpec.arr_children (trav sp))
+  end.
+
 Definition run (s : sexp) : sexp :=
   match s with
   | SL [SI 1; c; o] =>
@@ -443,6 +451,11 @@ Definition run (s : sexp) : sexp :=
     match omapM (dec_list dec_act) ps with
     | Some l => cmd_wf l
     | None => bad
+    end
+  | SL [SI 21; c; o] =>
+    match dec_cfg c, dec_obj o with
+    | Some c', Some o' => cmd_arr_children c' o'
+    | _, _ => bad
     end
   | SL [SI 17; c; o] =>
     match dec_cfg c, dec_obj o with
